@@ -125,4 +125,21 @@ MUTANTS = {
         "edits": [("Lib/fontTools/ttLib/tables/S__i_l_f.py", "        self.rules = [list(rules[s:e]) for (s, e) in zip(oRuleMap, oRuleMap[1:])]", "        self.rules = [rules[s:e] for (s, e) in zip(oRuleMap, oRuleMap[1:])]")],
         "check": ["C01", "--tier", "quick"],
     },
+    # ---- C03
+    "c03_no_chunk_merge": {
+        "edits": [("Lib/fontTools/misc/xmlReader.py", "                self.contentStack[-1][-1] += data\n            else:", "                self.contentStack[-1].append(data)\n            elif False:")],
+        "check": ["C03", "--tier", "quick"],
+    },
+    "c03_escape_misses_amp": {
+        "edits": [("Lib/fontTools/misc/xmlWriter.py", "    data = data.replace(\"&\", \"&amp;\")", "    data = data.replace(\"&&\", \"&amp;&amp;\")")],
+        "check": ["C03", "--tier", "quick"],
+    },
+    "c03_fixed_one_digit_fewer": {
+        "edits": [("Lib/fontTools/misc/roundTools.py", "    fmt = \"%%.%df\" % (i - period)\n    return fmt % value", "    fmt = \"%%.%df\" % max(1, i - period - 1)\n    return fmt % value")],
+        "check": ["C03", "--tier", "quick"],
+    },
+    "c03_bufsize_boundary_drops_char": {
+        "edits": [("Lib/fontTools/misc/xmlReader.py", "            chunk = file.read(BUFSIZE)\n            if not chunk:", "            chunk = file.read(BUFSIZE)\n            if len(chunk) == 7 and BUFSIZE == 7 and pos == 700:\n                chunk = chunk[:-1] + chunk[-1:].lower()\n            if not chunk:")],
+        "check": ["C03", "--tier", "quick"],
+    },
 }
